@@ -88,12 +88,15 @@ def build(provider, cfg, sched, start=0, qsize_arg=None):
         loader = ("load_video", lambda fn_, **kw: video)
         kw = dict(video_start_idx=start, video_end_idx=start + n)
     elif provider == "VideoReader":
-        total = start + n + 2
+        # the range is given explicitly, or its end is left open (None: "to the end of the video" - the video then ends
+        # exactly there) and a start of 0 is left out too
+        open_end = (start + n) % 2 == 0
+        total = start + n + (0 if open_end else 2)
         video = FakeVideo(total, 6, 10, 1, fail_idx=(start + fail - 1) if fail else None, sched=sched)
         meta["expect"] = [dict(frame_idx=start + p - 1, video_idx=0, size=[6, 10], pix=((start + p - 1) % 251) + 1) for p in range(1, n + 1)]
         pos_of = lambda v, f: f - start + 1
         loader = ("load_video", lambda fn, **kw: video)
-        kw = dict(video_start_idx=start, video_end_idx=start + n)
+        kw = dict(video_start_idx=(None if (open_end and start == 0) else start), video_end_idx=(None if open_end else start + n))
     else:
         gt = provider == "LabelsReaderGT"
         provider = "LabelsReader"
